@@ -94,6 +94,17 @@ def run(ck: Check):
     for c, m, i in zip(cases, model, impl):
         if m != i:
             ck.mismatch(c.split()[0], c, m, i)
+    # "protected" is a promise about the whole run, not only about load(): every strategy, on a marker file, shows the
+    # test (and leaves behind) files that still begin with the text through the DDBEGIN line and end with the text
+    # from the DDEND line on (C05's oracle on a small fixed set; C05 explores this in depth)
+    from explore import Explorer, make_oracle_c05
+    ex5 = Explorer(ck, oracles=[make_oracle_c05()])
+    for data in (b"// head\nDDBEGIN\nfunction f() {\n\n}\nkeep();\nDDEND\n// tail\n", b"x DDBEGIN\r\na.b.c = 1;\r\n{\r\n}\r\n/* DDEND */ t"):
+        for strategy in ("minimize", "minimize-around", "minimize-balanced", "minimize-collapse-brace",
+                         "replace-properties-by-globals", "replace-arguments-by-globals"):
+            for atom in ("line", "symbol", "char"):
+                for v in ("Y" * 80, "Y" + "NY" * 40, "YN" + "Y" * 60):
+                    ex5.one(strategy, {}, None, data, v, atom=atom, load=True, stream="run-keeps-markers", model=False, cap=200)
     # the same object loading a second file (a library user, a second pass) splits it like a fresh object
     from props.c06 import reload_same_object
     reload_same_object(ck)
